@@ -142,6 +142,60 @@ def reference_main():
     json.dump(out, sys.stdout)
 
 
+def api_histories(run):
+    """models composed through the Python API that share one energy callable (and differ in the step of the numerical
+    derivative, or in the species): every ordering of building / writing / evaluating them must give, for each model, the
+    bytes it gives when it is the only thing the process ever built"""
+    import itertools, math
+    from atsim.potentials import Potential
+    from atsim.potentials.pair_tabulation import LAMMPS_PairTabulation, DLPoly_PairTabulation
+
+    def energy_fn():
+        def f(r):
+            return 1.5 * math.exp(-r) + 0.25 * r * r
+        return f
+
+    def build(kind, f):
+        if kind == "coarse":
+            return LAMMPS_PairTabulation([Potential("A", "B", f, h=0.5)], 4.0, 9)
+        if kind == "fine":
+            return LAMMPS_PairTabulation([Potential("A", "B", f)], 4.0, 9)
+        return DLPoly_PairTabulation([Potential("B", "C", f, h=0.01), Potential("A", "A", f)], 4.0, 12)
+
+    def out(tab):
+        b = io.StringIO()
+        tab.write(b)
+        return b.getvalue()
+    kinds = ("coarse", "fine", "dlpoly")
+    ref = {k: out(build(k, energy_fn())) for k in kinds}
+    n = 0
+    for L in (2, 3):
+        for order in itertools.permutations(kinds, L):
+            for interleave in (False, True):
+                shared = energy_fn()
+                tabs = {}
+                got = {}
+                if interleave:          # build everything first, then write in the same order
+                    for k in order:
+                        tabs[k] = build(k, shared)
+                    for k in order:
+                        got[k] = out(tabs[k])
+                else:
+                    for k in order:
+                        tabs[k] = build(k, shared)
+                        got[k] = out(tabs[k])
+                for k in order:
+                    n += 1
+                    if got[k] != ref[k]:
+                        a, b = ref[k].splitlines(), got[k].splitlines()
+                        first = next(("line %d: %r, alone %r" % (i + 1, y, x) for i, (x, y) in enumerate(zip(a, b)) if x != y), "length differs")
+                        run.violation(dict(engine="session", clause="output-differs", excel=False, same_cells=False, model="api-" + k),
+                                      "[output-differs] Python API models sharing one energy callable, built in the order %s (%s): the table of %r differs from the one it gives alone (%s)" % (
+                                          list(order), "all built, then written" if interleave else "each written when built", k, first), dict(order=list(order), kind=k))
+                        return n
+    return n
+
+
 _REF = {}
 _HIST = []
 
@@ -262,6 +316,9 @@ def main(prop, tier, seed):
             for clause, excel, same_cells, msg, h in r["bad"]:
                 run.violation(dict(engine="session", clause=clause, excel=excel, same_cells=same_cells), "[%s] %s" % (clause, msg), dict(history=h))
         run.replayed += len(hist)
+        napi = api_histories(run)
+        run.evaluations += napi
+        run.notes["api_shared_callable_histories"] = napi
         for h in hist:
             if len(h) >= 2:
                 run.distinct(json.dumps(h))
